@@ -32,6 +32,7 @@ LATTICES = {
     "3d-long-short": [[2.0, 0.0, 0.0], [0.0, 0.5, 0.0], [0.0, 0.0, 1.0]],
     "2d-sheared-strong": [[1.0, 0.0], [1.75, 1.0]],
     "3d-fcc": [[0.0, 0.5, 0.5], [0.5, 0.0, 0.5], [0.5, 0.5, 0.0]],
+    "2d-obtuse": [[1.0, 0.0], [-0.75, 1.0]],
 }
 
 
@@ -105,7 +106,7 @@ def build_grid(pg, lattice_name, pts, w, wrap):
     return pg.PeriodicGrid(pts, w, np.array(A), wrap=wrap)
 
 
-def replay_factory(lattice_name, n, dim, wrap, onedim_sym=False):
+def replay_factory(lattice_name, n, dim, wrap, onedim_sym=False, history=False):
     def replay(m):
         pg, bg = _mods()
         with unpatched(pg, bg):
@@ -128,6 +129,10 @@ def replay_factory(lattice_name, n, dim, wrap, onedim_sym=False):
                 info = dict(lattice=lattice_name, realvecs=None if A is None else A.tolist(), points=pts.tolist(), center=np.atleast_1d(ctr).tolist(), radius=rad, wrap=wrap)
                 try:
                     g = pg.PeriodicGrid(pts, w, A, wrap=wrap)
+                    if history:
+                        g.get_localgrid(ctr, rad)
+                        w = np.array([float(m.get(f"nw{i}", 7.0 + i)) for i in range(n)])
+                        g.weights = w
                     loc = g.get_localgrid(ctr, rad)
                 except Exception as ex:
                     info["raised"] = f"{type(ex).__name__}: {ex}"
@@ -250,7 +255,7 @@ def job_range(ctx: Ctx, lattice_name, n, wrap):
 
 
 # ----------------------------------------------------------------------------- wiring: exactly the images inside, each once
-def job_wiring(ctx: Ctx, lattice_name, n, wrap, onedim=None):
+def job_wiring(ctx: Ctx, lattice_name, n, wrap, onedim=None, history=False):
     """onedim: None (use LATTICES), 'sym' (1-D grid, symbolic lattice vector of either sign), 'none' (no lattice vectors, 1-D / 2-D)."""
     pg, bg, rec = install(StubTree)
     e = ctx.engine
@@ -303,8 +308,20 @@ def job_wiring(ctx: Ctx, lattice_name, n, wrap, onedim=None):
             e.assume(f >= 0, f <= 1)
         name = lattice_name
     ctx.bounds.update(dict(lattice=name, points=n, wrap=wrap))
-    key = f"periodic:wiring:{name}"
-    R = replay_factory(lattice_name if onedim is None else ("none" if onedim == "none" else "sym"), n, dim, wrap, onedim_sym=(onedim == "sym"))
+    key = f"periodic:wiring:{name}" + (":history" if history else "")
+    R = replay_factory(lattice_name if onedim is None else ("none" if onedim == "none" else "sym"), n, dim, wrap, onedim_sym=(onedim == "sym"), history=history)
+
+    def sampler(rng):
+        m = {"r": rng.uniform(0.05, 0.6), "a": rng.choice([-1, 1]) * rng.uniform(0.5, 2.0)}
+        for i in range(n):
+            m[f"p{i}"] = rng.uniform(0, 1.0)
+            m[f"w{i}"], m[f"nw{i}"] = rng.uniform(0.5, 2), rng.uniform(3, 5)
+            for a_ in range(3):
+                m[f"p{i}_{a_}"] = rng.uniform(0, 1.0)
+        for a_ in range(3):
+            m[f"c{a_}"] = rng.uniform(0, 1.0)
+        return m
+    ctx.shadow(f"periodic local grid == brute-force set of images ({name})", R, sampler, key=key)
 
     def body():
         import warnings
@@ -313,6 +330,9 @@ def job_wiring(ctx: Ctx, lattice_name, n, wrap, onedim=None):
             g = build_grid(pg, lattice_name, pts, w, wrap)
         else:
             g = pg.PeriodicGrid(pts, w, realvecs, wrap=wrap)
+        if history:          # an earlier identical query, then the weights are reassigned: the observed query must answer for the current weights
+            g.get_localgrid(center, r)
+            g.weights = arr([real(f"nw{i}") for i in range(n)])
         rec.ranges = None
         loc = g.get_localgrid(center, r)
         plain = bg.Grid(g.points, g.weights).get_localgrid(center, r) if onedim == "none" else None
@@ -457,6 +477,10 @@ def jobs(tier):
     js.append(Job("wiring/none-2d", job_wiring, "2d", 2, False, "none"))
     for name in (["2d-orthogonal", "2d-skewed"] if tier == "quick" else ["2d-orthogonal", "2d-skewed", "2d-negative", "2d-one-vector", "3d-one-vector"]):
         js.append(Job(f"wiring/{name}", job_wiring, name, 1, False))
+    for name in (["2d-obtuse", "2d-negative"] if tier == "quick" else ["2d-obtuse", "2d-negative", "2d-skewed", "2d-rotated"]):
+        js.append(Job(f"wiring/{name}/wrap=True", job_wiring, name, 1, True))
+    js.append(Job("wiring/1d-symbolic/history", job_wiring, "sym", 2, False, "sym", True))
+    js.append(Job("wiring/2d-orthogonal/history", job_wiring, "2d-orthogonal", 1, False, None, True))
     only = os.environ.get("SYMGRID_ONLY")
     return [j for j in js if not only or only in j.name]
 
